@@ -117,6 +117,7 @@ struct Setup {
   unsigned nsections = 3;       // .text + user sections
   unsigned nlabels = 6;         // anonymous labels created through the emitter
   unsigned nforeign = 1;        // labels created through the CodeHolder (no LabelNode exists until bind)
+  bool foreign_mix = false;     // foreign labels are created before / between the emitter's own labels
   uint32_t diag = 0;            // DiagnosticOptions
   uint32_t enc = 0;             // EncodingOptions
   bool is_a64() const { return arch == Arch::kAArch64; }
@@ -380,12 +381,16 @@ struct Exec {
     w.endObj().emit(out);
   }
 
+  // Labels created through the CodeHolder (or another emitter) have no LabelNode; with foreign_mix they are created
+  // BEFORE / BETWEEN the emitter's own labels, so the emitter's label-node table has to skip ids it never saw.
   void create_labels(BaseEmitter* e, CodeHolder& c) {
+    unsigned nf = 0;
     for (unsigned i = 0; i < su.nlabels; i++) {
+      if (su.foreign_mix && nf < su.nforeign && (i == 0 || i == 3)) { uint32_t lid; (void)c.new_label_id(Out(lid)); nf++; }
       if (i == 2) { Label l = e->new_named_label("named", SIZE_MAX); (void)l; }
       else { Label l = e->new_label(); (void)l; }
     }
-    for (unsigned i = 0; i < su.nforeign; i++) { uint32_t lid; (void)c.new_label_id(Out(lid)); }
+    for (; nf < su.nforeign; nf++) { uint32_t lid; (void)c.new_label_id(Out(lid)); }
   }
   unsigned label_count() const { return su.nlabels + su.nforeign; }
 
@@ -1042,6 +1047,7 @@ static void random_exec(FILE* out, vj::Rng& r, unsigned x, unsigned steps) {
   su.nsections = 1 + (unsigned)r.below(4);
   su.nlabels = 4 + (unsigned)r.below(5);
   su.nforeign = (unsigned)r.below(3);
+  su.foreign_mix = r.chance(1, 2);
   if (r.chance(1, 4)) su.diag |= uint32_t(DiagnosticOptions::kValidateAssembler);
   if (r.chance(1, 6)) su.diag |= uint32_t(DiagnosticOptions::kValidateIntermediate) | uint32_t(DiagnosticOptions::kValidateAssembler);
   if (!su.is_a64() && r.chance(1, 4)) su.enc |= uint32_t(EncodingOptions::kOptimizeForSize);
@@ -1140,6 +1146,7 @@ static void cpool_exec(FILE* out, vj::Rng& r, unsigned x, unsigned steps) {
   su.nsections = 1 + (unsigned)r.below(3);
   su.nlabels = 4 + (unsigned)r.below(3);
   su.nforeign = (unsigned)r.below(2);
+  su.foreign_mix = r.chance(1, 2);
   if (r.chance(1, 6)) su.diag |= uint32_t(DiagnosticOptions::kValidateAssembler);
   if (!su.is_a64() && r.chance(1, 4)) su.enc |= uint32_t(EncodingOptions::kOptimizeForSize);
   Exec ex(out, su, "compiler");
